@@ -484,6 +484,58 @@ func changeEqualsDestination(r *Rng, auto bool) req {
 	return q
 }
 
+func atMaxHours(r *Rng, emit func(string)) {
+	bf := []int{10, 10, 10, 2, 3, 7, 100}[r.Intn(7)]
+	k := 2 + r.Intn(5)
+	head := uint64(2000000)
+	owner := rAddr(r)
+	var uxs []gux
+	var totC, totH uint64
+	var cu []string
+	for j := 0; j < k; j++ {
+		h := uint64(1 + r.Intn(3*bf))
+		if h%uint64(bf) == 0 {
+			h++
+		}
+		if j > 0 && r.Chance(40) {
+			h = uxs[0].hrs // the smallest seeded case: equal small hours (three outputs of 5 hours, bf 10)
+		}
+		g := gux{bkSeq: uint64(1 + r.Intn(9)), time: head, addr: owner, coins: coinsAmt(r), hrs: h, src: rSha(r)}
+		if r.Chance(20) {
+			g.addr = rAddr(r)
+		}
+		uxs = append(uxs, g)
+		totC += g.coins
+		totH += h
+		u := g.ux()
+		cu = append(cu, fmt.Sprintf("%s:%d:%s:%d:%d", u.Hash().Hex(), g.bkSeq, addrStr(g.addr), g.coins, g.hrs))
+	}
+	maxSend := totH - (totH+uint64(bf)-1)/uint64(bf)
+	for _, d := range []int64{0, 1, 2, 3, -1} {
+		want := int64(maxSend) - d
+		if want <= 0 {
+			continue
+		}
+		coins := totC
+		switch r.Intn(3) {
+		case 0:
+			coins = totC - totC/3 // leaves change coins
+		case 1:
+			coins = 1 + totC/2
+		}
+		q := req{bf: bf, head: head, typ: "manual", mode: "-", share: "-", change: addrStr(rAddr(r)), uxs: uxs}
+		if r.Bool() || coins < 2 || want < 2 {
+			q.to = []coin.TransactionOutput{{Address: rAddr(r), Coins: coins, Hours: uint64(want)}}
+		} else {
+			a := 1 + uint64(r.Intn(int(want-1)))
+			q.to = []coin.TransactionOutput{{Address: rAddr(r), Coins: coins / 2, Hours: a},
+				{Address: rAddr(r), Coins: coins - coins/2, Hours: uint64(want) - a}}
+		}
+		emit(q.op())
+		emit(fmt.Sprintf("choose bf=%d coins=%d hours=%d ux=%s", bf, coins, want, strings.Join(cu, ",")))
+	}
+}
+
 func c12Gen(r *Rng, tier string, emit func(string)) {
 	n := 2500
 	if tier == "thorough" {
@@ -556,6 +608,12 @@ func c12Gen(r *Rng, tier string, emit func(string)) {
 	}
 	for i := 0; i < n; i++ {
 		emit(genReq(r).op())
+	}
+	// completeness at the boundary: manual-hours requests exactly AT the maximum sendable hours
+	// (total - ceil(total/bf), the fee is charged once on the total) and 1..3 below / 1 above it,
+	// over 2-6 offered outputs whose hours are small and not multiples of the burn factor
+	for i := 0; i < n/8+40; i++ {
+		atMaxHours(r, emit)
 	}
 
 	// ChooseSpends directly
